@@ -5,7 +5,7 @@ import networkx as nx
 
 from symx import AND, OR, NOT, EQ, SUM
 from vf.graphs import relabel
-from harness.reactor_common import (ALPHABET, sym_reaction, plain_substrate, its_iso, its_same, reactor, regenerated,  # noqa
+from harness.reactor_common import (ALPHABET, sym_reaction, plain_substrate, its_iso, its_same, reactor, regenerated, sym_xh_reaction,  # noqa
                                     family_reaction, FAMILIES)
 
 PROPERTY = "C04"
@@ -216,27 +216,7 @@ def h_own_xh(E, n, nh, kind, direction, omax=1):
     """all centre hydrogens explicit, symbolically: n heavy atoms (symbolic element, implicit count equal on both sides,
     bond orders per side) and nh explicit hydrogens, each bonded on either side to a solver-chosen heavy atom or (nh=2) to
     the other hydrogen (H-H); at least one hydrogen changes its partner."""
-    G, H, rs = sym_reaction(E, "r", n, els=("C", "O"), hs=(0, 1), cs=(0,), orders=tuple(range(omax + 1)))
-    nodes = list(G.nodes)
-    E.assume(AND([EQ(rs["h"]["G", v], rs["h"]["H", v]) for v in nodes]))
-    hyd = [n + 1 + j for j in range(nh)]
-    att = {}
-    heavy_opts = list(range(1, n + 1))
-    for side, g in (("G", G), ("H", H)):
-        for j, hv in enumerate(hyd):
-            g.add_node(hv, element="H", aromatic=False, hcount=0, charge=0, atom_map=hv)
-            # 0 = bonded to the other hydrogen of the first pair (H-H); a third hydrogen always sits on a heavy atom
-            att[side, hv] = int(E.choice("a%s%d" % (side, j), heavy_opts + ([0] if nh >= 2 and j < 2 else [])))
-        if nh >= 2:
-            E.assume((att[side, hyd[0]] == 0) == (att[side, hyd[1]] == 0))
-        for hv in hyd:
-            if att[side, hv] == 0:
-                g.add_edge(hyd[0], hyd[1], order=1)
-            else:
-                g.add_edge(att[side, hv], hv, order=1)
-    E.assume(any(att["G", hv] != att["H", hv] for hv in hyd))
-    if nh >= 2:  # the first two hydrogens are interchangeable: one representative per swap
-        E.assume((att["G", hyd[0]], att["H", hyd[0]]) <= (att["G", hyd[1]], att["H", hyd[1]]))
+    G, H, hyd, att = sym_xh_reaction(E, n, nh, omax)
     _regenerates_xh(E, G, H, hyd, kind, direction,
                     dict(n=n, nh=nh, kind=kind, direction=direction, attach={"%s%d" % k: v for k, v in att.items()}))
 
